@@ -137,6 +137,16 @@ def profile_obligations(P):
                 obs.append(req_ob("R-GRID", site, "one straight path returning (z, (u, v, Kx, Ky, Kz))", False if R.res else None,
                                   detail=str([(r.kind, r.raise_desc, r.path) for r in R.res])[:300]))
                 continue
+            # a caller-supplied quantity documented as `float or ndarray` may be a one-element array: f"{x:.3f}" formats it at once
+            # and raises TypeError for an array, while logging's own %-arguments are formatted inside the logging system,
+            # which never lets a formatting error reach the caller
+            inputs = [x for x in (R.ustar, R.z0, R.tke, R.mol, R.prsc) if isinstance(x, Expr)]
+            eager = []
+            for e in R.rets[0].events:
+                if e[0] == "eager-format" and isinstance(e[2][0], Expr) and e[2][1][-1:] in tuple("feEgGdn%") and any(e[2][0].eq(x) or e[2][0].eq(-x) for x in inputs):
+                    eager.append("%s formatted with '%s' at %s" % (e[2][0], e[2][1], e[1]))
+            obs.append(req_ob("R-ARGS", site, "no caller-supplied argument is formatted eagerly with a numeric format (a one-element array, which the signature allows, would raise)", not eager,
+                              detail="; ".join(eager[:2]) or None, key={"closure": closure, "clause": "eager-format"}))
             mut = [e for e in R.rets[0].events if e[0] == "param-mutation"]
             obs.append(req_ob("R-ARGS", site, "the caller's wind vector and other arguments are not modified (an in-place update would change the input of the next call, e.g. of the z0 <-> ustar round trip)",
                               not mut, detail="; ".join("%s %s" % (e[1], e[2]) for e in mut[:2]) or None, key={"closure": closure}))
@@ -667,7 +677,7 @@ def sector_window_obligations(P, hmax=359):
     observation with wind direction w and a symbolic half-width h; every comparison forks, so each explored path is a
     conjunction of linear constraints over (kk, w, h) together with the decision whether the observation enters the median.
     With exact Fourier-Motzkin elimination each path is checked against  selected <=> exists m in {-1,0,1}:
-    kk - h <= w + 360 m < kk + 1 + h  on the domain 0 <= kk <= 359, 0 <= w < 360, 1 <= h <= hmax."""
+    kk - h <= w + 360 m < kk + 1 + h  on the domain 0 <= kk <= 359 (integer), 0 <= w < 360, 1 <= h <= hmax (real)."""
     import lin
     from fractions import Fraction as Q_
 
@@ -676,7 +686,7 @@ def sector_window_obligations(P, hmax=359):
     zm, ws, wd, us, mo = (SymArr(n, 1, shape=(alg.sym("n_obs", pos=True, integer=True),), pos=(n != "mo_obs" and n != "wd_obs")) for n in ("zm_obs", "ws_obs", "wd_obs", "ustar_obs", "mo_obs"))
     facts = Facts()
     facts.refine(mo.val, {"+"})
-    h = alg.sym("half_wd_win", pos=True, integer=True)
+    h = alg.sym("half_wd_win", pos=True)  # documented as a float: half a 45-degree window is 22.5
     facts.refine(h - ONE, {"+", "0"})
     calls = []
 
@@ -721,7 +731,7 @@ def sector_window_obligations(P, hmax=359):
         okb = True
         for cexpr, op in ((alg.atom_expr(ka), ">="), (kk - L.rng.stop, "<"), (w, ">="), (w - 360, "<"), (h - ONE, ">="), (h - alg.const(hmax), "<=")):
             base.extend(lin.cons(cexpr, op)[0])
-        ints = (ka, ha)
+        ints = (ka,)  # the sector index is an integer; the half-width and the directions are real numbers
         dnfs = []
         for e, op, d in constraints:
             c = lin.cons(e, op if d else lin.NEGATE[op], ints)
